@@ -410,6 +410,15 @@ def run(F, R, tier):
                                 "from it can be another connection's" % (fname, v, mp, uses, mp))
     R.floor("C06.R2", n_ptr, 1, "map-element pointers live across a delete of their map")
 
+    # the two maps that receive an entry for every protected connect recycle their oldest entries (LRU): left-overs of connects that
+    # failed before tcp_connect / records nobody consumed must not fill them up - a full plain hash refuses the update (only logged)
+    # and the connect is still diverted, without a record
+    for mname in ("audit_map", "local_map"):
+        mt = (E.get("maps") or {}).get(mname, {}).get("map_type")
+        R.check(mt == 9, "C06.R2", "C06.R2:map-kind:%s" % mname, src,
+                "%s is a BPF_MAP_TYPE_LRU_HASH (left-over entries are recycled, an update never fails for lack of space)" % mname,
+                "%s has map type %r (9 = LRU hash expected): once it holds max_entries left-overs, new connects are diverted without a record" % (mname, mt))
+
     # ------------------------------------------------------------------ R3 layouts
     lay = E["layouts"]
     td = E["typedefs"]
